@@ -167,8 +167,20 @@ func runPageSet(c Case, emit Emitter) {
 				return errRet(d.SetDocGrid(document.DocGridType(op.Str("gt")), op.Int("gp"), op.Int("gc")))
 			case "ClearDocGrid":
 				return errRet(d.ClearDocGrid())
+			case "SetDefaultPageSettings":
+				return errRet(d.SetPageSettings(document.DefaultPageSettings()))
 			case "GetPageSettings":
 				d.GetPageSettings()
+				return "ok"
+			case "AddHeader":
+				return errRet(d.AddHeader(document.HeaderFooterTypeDefault, "H"+strconv.Itoa(i)))
+			case "AddFooter":
+				return errRet(d.AddFooter(document.HeaderFooterTypeDefault, "F"+strconv.Itoa(i)))
+			case "SetDifferentFirstPage":
+				d.SetDifferentFirstPage(i%2 == 0)
+				return "ok"
+			case "AddParagraph":
+				d.AddParagraph("P" + strconv.Itoa(i))
 				return "ok"
 			case "Reopen":
 				b, err := d.ToBytes()
